@@ -5,7 +5,7 @@ CONSTANTS
   Kind = "nameaddr"
   Atoms <- AtomsQuote
   Prefix <- PfxNone
-  MaxLen = 4
+  MaxLen = 5
   Cfgs <- CfgsNA1
   Junk = 34
   EmitOn = TRUE
